@@ -613,6 +613,21 @@ pub fn body() {
         });
     }));
 
+    // The wall clock (what `SystemClock` reads) is simulated too and never agrees with the clock the
+    // cache is configured with: it is skewed by an hour or 400 days either way (fault kind "clock
+    // skew"). The cache always gets the simulated clock through its configuration, so nothing in it
+    // may consult the wall clock.
+    let skew_secs: i64 = [3_600i64, -3_600, 400 * 86_400, -400 * 86_400][(sc.salt % 4) as usize];
+    verif::install_wall_clock(Box::new(move || {
+        sim::probe("fault.wall_clock_read_by_the_cache");
+        let t = UNIX_EPOCH + sim::now();
+        if skew_secs >= 0 {
+            t + std::time::Duration::from_secs(skew_secs as u64)
+        } else {
+            t - std::time::Duration::from_secs((-skew_secs) as u64)
+        }
+    }));
+
     let cache = Arc::new(build_cache(&sc.cfg));
     let shards = sc.cfg.shards;
     if let Some(drv) = online.as_mut() {
@@ -747,6 +762,7 @@ pub fn body() {
     crossbeam_channel::sim_ticks::drop_ticks();
     PROBES.with(|p| *p.borrow_mut() = sim::probes());
     verif::uninstall();
+    verif::uninstall_wall_clock();
     sim::finish();
     // hand the online driver back (it holds the model / recorded state the oracles may want)
     CURRENT.with(|c| {
